@@ -78,6 +78,19 @@ class C12(Prop):
             yield dict(entry="Copeland." + ["score", "scf", "swf"][i % 3], family="big", rule="Copeland", method=["score", "scf", "swf"][i % 3], P=P, zi=bool(i % 2), tb=V.TBS[i % 3], k=1)
             if i % 4 == 0:
                 yield dict(entry="STV.scf", family="big", rule="STV", method="scf", P=P, zi=bool(i % 2), tb="first", k=1, seed=i)
+        # ranks stored as half / single precision floats by the caller, electorates around the size at which the SUM of all ranks leaves the range of
+        # a half-precision float (65504): the ranks themselves are small exact numbers in every float type
+        import math
+        for i in range(6 if tier == "quick" else 60):
+            m = [3, 6, 4][i % 3]; per = m * (m + 1) // 2
+            total = math.ceil(65520 / per) + [-1, 0, 1, 7, -40, 300][i % 6]
+            ballots = [rng.sample(range(1, m + 1), m) for _ in range(3)]
+            w0 = total // 2 + 1 if i % 2 else total // 3
+            mults = [w0, (total - w0) // 2, total - w0 - (total - w0) // 2]
+            P = [list(b) for b, w in zip(ballots, mults) for _ in range(w)]
+            dt = ["float16", "float16", "float32"][i % 3]
+            yield dict(entry="Copeland.score", family="narrow_float_big", rule="Copeland", method="score", P=P, zi=bool(i % 2), tb="accept", k=1, dtype=dt)
+            yield dict(entry="STV.scf", family="narrow_float_big", rule="STV", method="scf", P=P, zi=bool(i % 2), tb="first", k=1, seed=i, dtype=dt)
         N = 300 if tier == "quick" else 6000
         for i in range(N):
             kind = rng.choice(["random", "random", "majority", "split", "cycle"])
@@ -156,6 +169,7 @@ class C12(Prop):
         return None
 
     def coq(self, case, obs):
+        if case["family"] == "narrow_float_big": return None      # (ten thousand ballots: decided by the direct oracle)
         fix = 0 if case["zi"] else 1
         if case["rule"] == "STV":
             picks = [0] * len(case["P"][0]) if case["tb"] == "first" else [pop.index(r) for pop, r in self.stv_picks(obs)] + [0]
